@@ -98,6 +98,13 @@ def cases(tier, seed):
         yield ('K', cm.on_carrier([t]))
     for t in _spines(['x', 'y', 'z']):
         yield ('K', cm.on_carrier([t]))
+    from . import families
+    for m in families.models():
+        if in_fragment(m):
+            yield ('S', m)
+    for t in families.deep_trees():
+        if 'XOR' not in sh.tree_ops(t):
+            yield ('K', cm.on_carrier([t]))
     k1 = [t for t in cm.k1() if 'XOR' not in sh.tree_ops(t)]
     step = 5 if tier == 'quick' else 2
     for t1 in k1[::step]:
